@@ -92,34 +92,58 @@ end Jomini.BinTape
 
 namespace Jomini.BinTape
 
+/-- a token that can stand in value position: plain, and neither the `MixedContainer` marker nor an `Equal`
+(the parser pushes those only behind a marker / in key position) -/
+def BTok.isVal (t : BTok) : Bool := t.isPlain && (t != .mixed) && (t != .equal)
+
+/-- a token that can stand in key position: a scalar or id — plain, not the marker, not `Equal`, not an `Rgb`
+(an rgb block is recognised in value position only) -/
+def BTok.isKey (t : BTok) : Bool :=
+  t.isVal && (match t with | .rgb _ _ _ _ => false | _ => true)
+
 /-- `n` empty containers, as lexemes -/
 def pairsLex : Nat → List Lx
   | 0 => []
   | n + 1 => .open_ :: .close :: pairsLex n
 
-/-- **One iteration of the loop, seen on the lexeme content of the tape.**  `Move A L1 B o`: the tape's
+/-- **One iteration of the loop, seen on the lexeme content of the tape.**  `Move p A L1 B o q`: the tape's
 lexeme content goes from `A` to `B` while the lexemes `L1` are read; `o` is `some odd` exactly for the
-only_empties rewrite (tape.rs:600-616), `odd` being what `chunks_exact(2)` overlooks.  There are four moves
-and no other:
-* `keep`: everything read is appended (a key, a value, `{`, `}`, an `=` in a mixed container, an rgb block);
-* `eqAfterKey`: an `=` is read and not recorded, and the last lexeme on the tape is a scalar — the key;
-* `ghost`: an adjacent `{ }` pair is read and not recorded;
-* `rewrite`: an `=` is read and not recorded; the tape ends with the `{` of a container, then `n ≥ 1` empty
-  containers, then at most one more tape token (`odd`), then the token `last`; the empty containers and `odd`
-  are removed (the container becomes an object with key `last`). -/
-inductive Move : List Lx → List Lx → List Lx → Option (List Lx) → Prop
-  | keep (A L1 : List Lx) : Move A L1 (A ++ L1) none
-  | eqAfterKey (A : List Lx) (k : BTok) : Move (A ++ [.tok k]) [.equal] (A ++ [.tok k]) none
-  | ghost (A : List Lx) : Move A [.open_, .close] A none
-  | rewrite (A : List Lx) (n : Nat) (odd : List Lx) (last : BTok) : 1 ≤ n → (odd = [] ∨ ∃ y : BTok, odd = flatten y) →
-      Move (A ++ [.open_] ++ pairsLex n ++ odd ++ flatten last) [.equal] (A ++ [.open_] ++ flatten last) (some odd)
+only_empties rewrite (tape.rs:600-616), `odd` being what `chunks_exact(2)` overlooks.  The flags say whether
+**a value is owed** (an `=` has just been dropped, `ObjectValue`): `p` before the move, `q` after it.  There
+are four moves and no other:
+* `keep`: everything read (at least one lexeme) is appended — a key, a value, `{`, `}`, an `=` in a mixed
+  container, an rgb block; this is the ONLY move possible while a value is owed, so the lexeme that follows a
+  dropped `=` is always recorded (in particular an empty container in value position is never dropped);
+* `eqAfterKey`: an `=` is read and not recorded; no value is owed, and the last lexeme on the tape is a key
+  token `k` (a scalar or id: not `{`, `}`, `=`, not an rgb block); afterwards a value is owed;
+* `ghost`: an adjacent `{ }` pair is read and not recorded; no value is owed (tape.rs:549, state `Key`);
+* `rewrite`: an `=` is read and not recorded; no value is owed; the tape ends with the `{` of a container, then
+  `n ≥ 1` empty containers, then at most one more tape token (`odd`: a scalar, an id or an rgb block —
+  `isVal`; never `{`, `}` or `=`), then the key token `last`; the empty containers and `odd` are removed
+  (the container becomes an object with key `last`); afterwards a value is owed.
 
-/-- a run of moves: from content `A`, reading `L`, to content `C`; `odds` lists the `odd` chunk of every
-rewrite move, in order (its length is the number of rewritten containers) -/
-inductive Moves : List Lx → List Lx → List Lx → List (List Lx) → Prop
-  | nil (A : List Lx) : Moves A [] A []
-  | step {A B C L1 L2 : List Lx} {o : Option (List Lx)} {odds : List (List Lx)} :
-      Move A L1 B o → Moves B L2 C odds → Moves A (L1 ++ L2) C (o.toList ++ odds)
+What the relation does NOT express (it is an **upper bound on what may be dropped** in these respects, because
+the lexeme content of the tape does not show them): whether the innermost open container is an object or an
+array, and where a `MixedContainer` marker stands (`flatten .mixed = []`).  So `eqAfterKey` and `ghost` are
+allowed behind any key token / at any point where no value is owed, although the parser performs them only in
+`KeyValueSeparator` / `OpenSecond`, respectively `Key`, i.e. in key position of an object or of the root.
+The structural side of these facts is `C06_bin_object_pairs`. -/
+inductive Move : Bool → List Lx → List Lx → List Lx → Option (List Lx) → Bool → Prop
+  | keep (p : Bool) (A L1 : List Lx) : L1 ≠ [] → Move p A L1 (A ++ L1) none false
+  | eqAfterKey (A : List Lx) (k : BTok) : k.isKey = true →
+      Move false (A ++ [.tok k]) [.equal] (A ++ [.tok k]) none true
+  | ghost (A : List Lx) : Move false A [.open_, .close] A none false
+  | rewrite (A : List Lx) (n : Nat) (odd : List Lx) (last : BTok) : 1 ≤ n → last.isKey = true →
+      (odd = [] ∨ ∃ y : BTok, odd = flatten y ∧ y.isVal = true) →
+      Move false (A ++ [.open_] ++ pairsLex n ++ odd ++ flatten last) [.equal] (A ++ [.open_] ++ flatten last)
+        (some odd) true
+
+/-- a run of moves: from content `A` (value owed: `p`), reading `L`, to content `C`; `odds` lists the `odd`
+chunk of every rewrite move, in order (its length is the number of rewritten containers) -/
+inductive Moves : Bool → List Lx → List Lx → List Lx → List (List Lx) → Prop
+  | nil (p : Bool) (A : List Lx) : Moves p A [] A []
+  | step {p q : Bool} {A B C L1 L2 : List Lx} {o : Option (List Lx)} {odds : List (List Lx)} :
+      Move p A L1 B o q → Moves q B L2 C odds → Moves p A (L1 ++ L2) C (o.toList ++ odds)
 
 /-- scalar / id lexemes (everything but `{`, `}`, `=`) -/
 def Lx.isTok : Lx → Bool
